@@ -418,6 +418,91 @@ def route_pieces(cls, fns):
     return out
 
 
+# ---------------------------------------------------------------- normal form: single-assignment local aliases inlined
+
+_PURE = (ast.Name, ast.Subscript, ast.Constant, ast.BinOp, ast.UnaryOp, ast.expr_context, ast.operator, ast.unaryop)
+
+
+def _pure(e):
+    return all(isinstance(m, _PURE) for m in ast.walk(e)) and not any(isinstance(m, ast.Slice) for m in ast.walk(e))
+
+
+def _assigned(stmts):
+    """names a statement list may change: plain stores, bases of subscript / attribute stores, loop targets, and -- since a
+    call may mutate what it is given -- every name that occurs inside a call"""
+    out = set()
+    for st in stmts:
+        for m in ast.walk(st):
+            if isinstance(m, ast.Name) and isinstance(m.ctx, (ast.Store, ast.Del)):
+                out.add(m.id)
+            elif isinstance(m, (ast.Subscript, ast.Attribute)) and isinstance(m.ctx, (ast.Store, ast.Del)):
+                b = m
+                while isinstance(b, (ast.Subscript, ast.Attribute)):
+                    b = b.value
+                if isinstance(b, ast.Name):
+                    out.add(b.id)
+            elif isinstance(m, ast.Call):
+                out.update(x.id for x in ast.walk(m) if isinstance(x, ast.Name))
+    return out
+
+
+def _top_alias(body, name):
+    """index of the one top-level `name = <pure expression>` of a statement list, or None"""
+    hits = [k for k, st in enumerate(body) if isinstance(st, ast.Assign) and len(st.targets) == 1 and
+            isinstance(st.targets[0], ast.Name) and st.targets[0].id == name and _pure(st.value)]
+    return hits[0] if len(hits) == 1 else None
+
+
+def inline_aliases(fn, loop):
+    """Normal form of a loop body.  A local name bound ONCE per iteration, at the top level of the body and before any use,
+    to a pure expression (names, subscripts, arithmetic; no call, no slice) over things the body never assigns
+    (`i1 = omatch1[s[i]]`) is replaced by that expression and its binding is dropped, so that
+    `x = a[b[i]]; if g[x] < m: g[x] += 1` and `if g[a[b[i]]] < m: g[a[b[i]]] += 1` compile to the same term.
+    Done only when every other occurrence of the name in the function lies in a loop body that binds it the same way
+    (so the dropped binding is dead); otherwise the binding stays and compiles as the assignment it is."""
+    body = list(loop.body)
+    loops = [n for n in ast.walk(fn) if isinstance(n, ast.For)]
+    changed = True
+    while changed:
+        changed = False
+        for k, st in enumerate(body):
+            if not (isinstance(st, ast.Assign) and len(st.targets) == 1 and isinstance(st.targets[0], ast.Name) and _pure(st.value)):
+                continue
+            name = st.targets[0].id
+            rest = body[:k] + body[k + 1:]
+            if name in _assigned(rest) or (isinstance(loop.target, ast.Name) and loop.target.id == name):
+                continue                                      # bound more than once
+            if any(isinstance(m, ast.Name) and m.id == name for b in body[:k + 1] for m in ast.walk(b.value if b is st else b)):
+                continue                                      # read before (or inside) its binding
+            reads = set(m.id for m in ast.walk(st.value) if isinstance(m, ast.Name))
+            if reads & _assigned(rest):
+                continue                                      # the expression's value may change after the binding
+            # every occurrence of the name in the function: inside a loop body that binds it at its top level, after the binding
+            covered = set()
+            for lp in loops:
+                j = _top_alias(lp.body, name)
+                if j is not None:
+                    covered.add(id(lp.body[j].targets[0]))
+                    for later in lp.body[j + 1:]:
+                        covered.update(id(m) for m in ast.walk(later))
+            if any(isinstance(m, ast.Name) and m.id == name and id(m) not in covered for m in ast.walk(fn)):
+                continue
+            value = st.value
+
+            class Sub(ast.NodeTransformer):
+                def visit_Name(self, n):
+                    if n.id == name and isinstance(n.ctx, ast.Load):
+                        return ast.copy_location(copy.deepcopy(value), n)
+                    return n
+            # (the statements are replaced by transformed COPIES; node identities of the original tree stay valid for `covered`)
+            body = [Sub().visit(copy.deepcopy(b)) for b in rest]
+            for b in body:
+                ast.fix_missing_locations(b)
+            changed = True
+            break
+    return body
+
+
 # ---------------------------------------------------------------- spherematch(): the two maxmatch passes (used by translate/c04.py)
 
 def greedy_pieces(fn):
@@ -442,7 +527,7 @@ def greedy_pieces(fn):
         out.append('(* spherematch(), %s pass, source line %d *)' % (tag, loop.lineno))
         out += range_defs(comp, loop, 'gen_greedy_%s' % tag, None)
         out.append(defn('gen_greedy_%s_var' % tag, '', 'string', '"%s"' % loop.target.id))
-        out.append(defn('gen_greedy_%s_body' % tag, '', 'stmt', comp.block([comp.norm(x) for x in loop.body])))
+        out.append(defn('gen_greedy_%s_body' % tag, '', 'stmt', comp.block([comp.norm(x) for x in inline_aliases(fn, loop)])))
     return out
 
 
